@@ -74,7 +74,7 @@ func initAllowed(path string) bool {
 	switch path {
 	case "unicode/utf8", "unicode", "strings", "bytes", "strconv", "sort", "slices", "maps",
 		"errors", "io", "io/fs", "internal/oserror", "path", "path/filepath", "internal/filepathlite", "bufio", "go/token",
-		"go/types", "go/ast", "go/constant", "go/scanner", "unicode/utf16", "math/bits", "internal/stringslite", "internal/bytealg", "cmp", "iter", "text/scanner", "context", "github.com/go-courier/logr", "github.com/octohelm/x/context":
+		"go/types", "go/ast", "go/constant", "go/scanner", "unicode/utf16", "math/bits", "internal/stringslite", "internal/bytealg", "cmp", "iter", "text/scanner", "context", "github.com/go-courier/logr", "github.com/octohelm/x/context", "github.com/octohelm/x/types":
 		return true
 	}
 	return false
